@@ -697,6 +697,8 @@ class TorchBackendProvider(BackendProvider):
             return torch.pow(float(a), b)
         # For numpy arrays or scalars
         a_val = float(a) if isinstance(a, (int, numpy.integer)) else a
+        if isinstance(a_val, numpy.ndarray) and a_val.dtype.kind in 'iu':
+            a_val = a_val.astype(float)  # integer arrays cannot be raised to negative integer powers
         b_val = b.item() if isinstance(b, torch.Tensor) and b.ndim == 0 else (b.cpu().numpy() if isinstance(b, torch.Tensor) else b)
         return numpy.power(a_val, b_val)
 
